@@ -146,7 +146,12 @@ MonStep(M, s, r, panic) ==
          IF r.k # "ok" THEN M
          ELSE IF s.what = "reply" THEN
               IF s.id \in DOMAIN M.req THEN [M EXCEPT !.req[s.id].rep = IF s.ok THEN "ok" ELSE "fail"] ELSE M
-         ELSE [M EXCEPT !.inb = (<<s.q, s.p>> :> (Inb(M, s.q, s.p) + 1)) @@ @]
+         ELSE IF s.what = "inbound" THEN [M EXCEPT !.inb = (<<s.q, s.p>> :> (Inb(M, s.q, s.p) + 1)) @@ @]
+         ELSE M     \* a suspended report_connection_established completed
+    [] s.a = "dropproto" ->
+         \* the user dropped protocol q: nobody observes for it any more, its requests are void
+         [M EXCEPT !.conn = {x \in @ : x[1] # s.q},
+                   !.req = [i \in DOMAIN @ |-> IF @[i].q = s.q /\ @[i].st = "open" THEN [@[i] EXCEPT !.st = "void"] ELSE @[i]]]
     [] OTHER -> M    \* fclose
 
 \* nothing is in flight: every inbox is empty, every live connection has read all its commands
